@@ -43,6 +43,7 @@ def box_selector(src, nb, tag):
 def run_case(ctx):
     src = ctx.src
     common.draw_env(ctx)
+    common.prelude(ctx)
     m = world.gen_world(src, scale=("hugebox", "manyboxes", "farcorner", "manyfields"))
     path, _ = common.materialise(ctx, m)
     o = common.open_cooker(ctx, path)
